@@ -33,7 +33,13 @@ func runC05(c *Ctx) {
 func sweepOperands(c *Ctx, cs *vc.Contracts, opt vc.Options) {
 	pkgs := map[string]bool{}
 	for _, p := range cs.Sweeps["operands-kept"] {
-		pkgs[p] = true
+		// quick: the arithmetic package; thorough: every package that carries the clause
+		if p == "cl" || c.Tier == "thorough" {
+			pkgs[p] = true
+		}
+	}
+	c.Covers = func(name string) bool {
+		return c.Tier == "thorough" || strings.HasPrefix(name, "cl.") || !strings.Contains(name, "/operand-kept@")
 	}
 	if len(pkgs) == 0 {
 		return
@@ -69,6 +75,19 @@ func sweepOperands(c *Ctx, cs *vc.Contracts, opt vc.Options) {
 	o.OperandsKept = true
 	o.Safety = false
 	res := c.runUnits(roots, o, defaultSolve(), 16)
+	// only the package-wide clause: obligations of a contract block that belongs to another property stay with that property
+	for _, r := range res {
+		if r == nil {
+			continue
+		}
+		var keep []*vc.Obligation
+		for _, ob := range r.Obls {
+			if strings.HasPrefix(ob.Kind, "operand-kept") {
+				keep = append(keep, ob)
+			}
+		}
+		r.Obls = keep
+	}
 	c.addResults(res)
 	c.Extra["operands_kept_sweep_functions"] = len(roots)
 }
